@@ -229,7 +229,19 @@ def kernel(chk, tier, rng):
         nq += 1
         if v2 != "unsat":
             bad.append("bracket %d: cubic exactness %s" % (k, v2))
-    chk.obligation("kernel: qha.v2p on its own pressure field returns the requested pressure; cubic data reproduced exactly [%d queries]" % nq,
+        # node exactness: at a requested pressure equal to a bracket node's pressure every quantity is returned with that node's value
+        # (in particular V(T, P_node) = V_node, i.e. P(T, V(T,P)) = P holds exactly on the grid nodes)
+        extF = [F[0, 3]] + list(F[0]) + [F[0, -4]]
+        pname = list(Sym.of(p[0]).variables())[0]
+        for jn, node in enumerate(nodes):
+            val = Sym.of(rf[0, 0]).subs({pname: Sym.of(node)})
+            cleared, dens = S.clear_inverses(val - Sym.of(extF[k - 1 + jn]))
+            v3, env = Z.prove_zero(cleared, name="kernel:node-exact[k=%d,node %d]" % (k, jn), extra=extra, timeout_ms=30000)
+            nq += 1
+            if v3 != "unsat":
+                bad.append("bracket %d: value at node %d is not the node's value (%s)" % (k, jn, v3))
+    chk.obligation("kernel: qha.v2p on its own pressure field returns the requested pressure; cubic data reproduced exactly; at a node pressure every "
+                   "quantity takes the node's value [%d queries]" % nq,
                    "unsat" if not bad else ("unknown" if all("unknown" in b for b in bad) else "sat"), seconds=round(time.time() - t0, 2),
                    kind="identity", detail=bad[:3])
     if bad:
